@@ -58,6 +58,16 @@ def gen_case(rng):
         desc["ode_modifier"] = {tgt: {"factors": [rng.choice(["-2.0", "1.5 * k[0]", "zeta", "-k[0]", "(nH + 1.0)"]) for _ in range(nt)],
                                       "reactants": [[rng.choice(sp) for _ in range(rng.randint(1, 3))] for _ in range(nt)]}}
     desc["mode"] = mode
+    # a third of the cases edit the network after the modifiers were attached (the species set is kept)
+    if rng.random() < 0.35 and n >= 2:
+        j = rng.randrange(n)
+        edits = [["remove", j]]
+        rest = {s for i, (r, p) in enumerate(desc["reactions"]) if i != j for s in r + p}
+        r0, p0 = desc["reactions"][j]
+        if not set(r0 + p0) <= rest or rng.random() < 0.6:
+            new_idx = -1 if mode == "unindexed" else rng.choice(sorted(keys) + [7777]) if keys else 7777
+            edits.append(["add", list(r0), list(p0), new_idx])
+        desc["edits"] = edits
     return desc
 
 
@@ -75,6 +85,8 @@ def check_api(res, model, desc, rng, tag):
     rmod = desc.get("rate_modifier") or {}
     res.count(f"index-mode={desc.get('mode')}")
     res.count(f"rate-mods={len(rmod)}")
+    if desc.get("edits"):
+        res.count("edited-after-modifiers")
     idxs = [r.idxfromfile for r in a.info.reactions]
     # oracle on the rate assignments
     for pos, (s1, s0) in enumerate(zip(a.ode.rateeqns, b.ode.rateeqns)):
@@ -146,7 +158,7 @@ def check_render(res, model, desc, tag):
     d = ol.render(net, templates=["src/naunet_rates.cpp.j2", "include/naunet_macros.h.j2"])
     st1 = rl.rates_statements((d / "src" / "naunet_rates.cpp").read_text())
     rmod = desc.get("rate_modifier") or {}
-    orig = [desc["idx"].get(i, i) for i in range(len(desc["reactions"]))]
+    orig = ol.final_indices(desc)
     want_idx = list(range(len(orig))) if all(i == -1 for i in orig) else orig
     if idxs != want_idx:
         res.violation("oracle", f"render: reaction indices became {idxs}, expected {want_idx} (re-index only when every index is -1)", case)
